@@ -151,7 +151,7 @@ class Path:
 
 
 class St:
-    __slots__ = ("env", "val", "evs", "selfcls", "fn", "depth", "exc", "frames", "module")
+    __slots__ = ("env", "val", "evs", "selfcls", "fn", "depth", "exc", "frames", "module", "last_func")
 
     def __init__(self):
         self.env: dict[str, ast.expr] = {}
@@ -163,6 +163,7 @@ class St:
         self.exc: dict[str, str] = {}  # exception variable -> kind
         self.frames: tuple = ()  # qualnames on the inline stack
         self.module = None
+        self.last_func = ""
 
     def fork(self) -> "St":
         s = St()
@@ -175,6 +176,7 @@ class St:
         s.exc = dict(self.exc)
         s.frames = self.frames
         s.module = self.module
+        s.last_func = self.last_func
         return s
 
 
@@ -773,9 +775,9 @@ class Enumerator:
                     continue
                 text = f"{render(recv)}.{tgt.attr}"
                 self._kill_atoms(st2, text)
-                st2.env[text] = term
-                if isinstance(term, (ast.Call,)) or aug:
-                    # do not propagate call terms through attributes (identity matters, e.g. self._x = T())
+                if isinstance(term, (ast.Constant, ast.Name)) and not aug:
+                    st2.env[text] = term  # only plain values flow through attributes (identity matters for anything computed)
+                else:
                     st2.env.pop(text, None)
                 self.emit(st2, "store", f"{text} = {render(term)}", stmt, target=text, attr=tgt.attr, recv=render(recv), value=render(term), term=term)
                 out.append((st2, None))
@@ -991,6 +993,7 @@ class Enumerator:
                 self.emit(st, "notify", recv, orig, all=call.func.attr == "notify_all")
                 return [(st, call, None)]
         text = render(call)
+        st.last_func = ftext
         self.emit(st, "call", text, orig, func=ftext, args=[render(a) for a in call.args], kwargs={k.arg: render(k.value) for k in call.keywords if k.arg}, term=call)
         out = []
         for kind in self.cfg.raises("call", text, orig, st):
